@@ -1801,11 +1801,9 @@ def _lincomb_impl(a, x1, b, x2, out):
           not _blas_is_applicable(x1.data, x2.data, out.data)):
 
         def fallback_axpy(x1, x2, n, a):
-            """Fallback axpy implementation avoiding copy."""
+            """Fallback axpy implementation."""
             if a != 0:
-                x2 /= a
-                x2 += x1
-                x2 *= a
+                x2 += a * x1
             return x2
 
         def fallback_scal(a, x, n):
